@@ -343,7 +343,7 @@ static uintptr_t pre_w(const struct hazard_era* s) { FOR_SLOT(i, s) return pre_s
 
 /* inputs (also used by the native replay program) */
 unsigned in_K, in_op, in_hint, in_last, in_a_he, in_b_he, in_has_cb, in_link[NSLOT], in_mark[NSLOT]; era_t in_last_era, in_clock, in_era[NSLOT]; uint64_t in_others[NSLOT];
-mptr in_a_ptr, in_b_ptr, in_src, in_expected, in_mask; era_t in_req_era; int in_order; unsigned in_self, in_rel;
+mptr in_a_ptr, in_b_ptr, in_src, in_expected, in_mask; era_t in_req_era; int in_order; unsigned in_self, in_rel, in_harness;
 
 static void havoc_guard(struct guard* g, unsigned* in_he, mptr* in_ptr) {
   *in_he = nondet_uint(); *in_ptr = nondet_uptr(); g->he = slot_of(*in_he); g->ptr = *in_ptr; }
@@ -395,7 +395,7 @@ static void chk_exit(const struct guard* a, const struct guard* b) {
 /* loop invariant of acquire's retry loop (self = the guard, prev_era = local) */
 #define XV_INV_ACQ (self == &ga && !xv_threw && inv_ok(&ga, &gb) && gi1(&ga) && others_intact(&gb) && guard_eq(&gb, &pre_b) \
    && (ga.he == 0 ? prev_era == 0 : prev_era == slot_era(ga.he)) \
-   && order != mo_relaxed && order != mo_consume && !mon_unfenced_era_store && mon_last_slot_store_release && xv_clock >= g_clk0 && era_clock >= pre_clock)
+   && !mon_unfenced_era_store && mon_last_slot_store_release && xv_clock >= g_clk0 && era_clock >= pre_clock)
 #define XV_HAVOC_ACQ acq_havoc(); XV_ASSUME(xv_clock < CNT_MAX && mon_src_loads < CNT_MAX && mon_era_loads < CNT_MAX); self->he = any_slot_or_null(); self->ptr = nondet_uptr(); prev_era = nondet_u64()
 static void acq_havoc(void) {
   for (int i = 0; i < NSLOT; i++) {
@@ -599,7 +599,7 @@ static void h_dyn_alloc(void) {
   XV_OBL("he.guard_ops.preserve_inv", res.rest_ok);
 }
 void h_dyn(void) {
-  in_op = nondet_uint();
+  in_harness = 4; in_op = nondet_uint();
 #if XV_IN_GROUP(0)
   if (in_op == 0) h_dyn_alloc();
 #endif
@@ -609,7 +609,7 @@ void h_dyn(void) {
 }
 #else
 void h_slots(void) {
-  in_op = nondet_uint();
+  in_harness = 1; in_op = nondet_uint();
 #if XV_IN_GROUP(0)
   if (in_op == 0) h_alloc();
 #endif
@@ -820,7 +820,7 @@ static void op_acquire_if_equal(void) {
 }
 
 void h_guards(void) {
-  in_op = nondet_uint();
+  in_harness = 2; in_op = nondet_uint();
 #if XV_IN_GROUP(0)
   if (in_op == 0) op_ctor_ptr();
 #endif
@@ -859,7 +859,7 @@ void h_int(void) {
   havoc_guard(&ga, &in_a_he, &in_a_ptr); havoc_guard(&gb, &in_b_he, &in_b_ptr); havoc_state(&ga, &gb);
   in_order = nondet_int(); XV_ASSUME(in_order == mo_relaxed || in_order == mo_consume || in_order == mo_acquire || in_order == mo_seq_cst);
   g_clk0 = xv_clock;
-  in_op = nondet_uint();
+  in_harness = 3; in_op = nondet_uint();
 #if XV_IN_GROUP(0)
   if (in_op == 0) {
     env_on = 1; g_acquire(&ga, &g_src, in_order); env_on = 0;
